@@ -66,6 +66,11 @@ inductive Observed where
   | panic
 deriving DecidableEq, Repr
 
+/-- how an answer of the model (or of the code) is observed -/
+def observe : Except Fail Bytes → Observed
+  | .ok b => .out b
+  | .error _ => .panic
+
 /-- expanding once more changes the text: some inserted value carries placeholder syntax -/
 def reexpanded (σ : Env) (b : Bytes) : Option Bytes :=
   match replace σ b with
